@@ -5,14 +5,16 @@ Deviation-bounded exhaustive enumeration, exact-arithmetic oracle
 
 Spaces
   billing   base read calendars x (<= d periods replaced by each off-nominal length at every
-            position) x zone x entry point x temperature feed
+            position) x zone x entry point x temperature feed (daily, hourly; half-hourly at d = 0)
   phase     no deviation; 30-day cycle whose first read is shifted by every 0..29 days, and 30-/61-day
             cycles whose first or closing read falls on each day of [DST date - 3, DST date + 3]
-  subdaily  15/30/60-minute readings over 5 local days (DST day in the middle) and daily
-            readings over 7, x (<= d runs of missing readings of each length at every start on
-            a 1-hour lattice) x {NaN, absent rows} x entry point
+  subdaily  15/30/60-minute readings over 5 local days (DST day in the middle) and daily readings
+            over 12 local days (Monday .. Friday of the next week, DST Sunday in the middle)
+            x (<= d runs of missing readings of each length at every start on a 1-hour lattice)
+            x {NaN, absent rows} x entry point
 """
 import datetime as dt
+import functools
 import itertools
 from fractions import Fraction
 
@@ -51,8 +53,9 @@ ASSUMPTIONS = [
     "the first present reading or after the final day must be NaN or absent",
     "values are positive (the electricity rule 'zero means missing' is not part of this property); "
     "comparisons at 1e-9 relative",
-    "Reporting classes share the resampling code with the Baseline classes; they are enumerated on the d <= 1 slice "
-    "with zone America/Chicago only (thorough: every zone)",
+    "Reporting classes inherit the resampling code unchanged from the same private base classes as the Baseline "
+    "classes; they are enumerated on a thinner d <= 1 slice and violation keys do not carry Baseline/Reporting (the "
+    "class is named in the detail)",
 ]
 
 # ------------------------------------------------------------------------------------ helpers
@@ -62,6 +65,7 @@ ZONES_ALL = ["UTC", "America/Chicago", "Europe/London", "Australia/Sydney", "Asi
 DEV_LENGTHS = [1, 10, 24, 25, 35, 36, 45, 70, 71, 90]
 
 
+@functools.lru_cache(maxsize=None)
 def dst_dates(zone, year=2021):
     """[(date, minutes_in_day)] of local days in `year` that are not 1440 minutes long."""
     out = []
@@ -137,7 +141,7 @@ def temperature_feed(zone, t0, t1, feed):
         d1, _ = iv.min_to_wall(t1, zone)
         mins = [iv.wall_to_min(iv.add_days(d0, k), zone) for k in range((d1 - d0).days + 1)]
     else:
-        mins = list(range(t0, t1 + 1, 60))
+        mins = list(range(t0, t1 + 1, 60 if feed == "hourly" else 30))
     vals = [50.0 + (k % 7) for k in range(len(mins))]
     return pd.Series(vals, index=to_index(mins, zone), name="temperature")
 
@@ -153,7 +157,8 @@ def billing_inputs(case):
                                 iv.wall_to_min(iv.add_days(dates[-1], 2), zone), feed)
         return ("series", meter, temp), dates, amounts, regime
     if entry == "frame_lastday":
-        last = iv.wall_to_min(iv.add_days(dates[-1], -1), zone) if feed == "daily" else reads[-1] - 60
+        last = (iv.wall_to_min(iv.add_days(dates[-1], -1), zone) if feed == "daily"
+                else reads[-1] - (60 if feed == "hourly" else 30))
         temp = temperature_feed(zone, reads[0], last, feed)
         obs = pd.Series([float(a) for a in amounts], index=to_index(reads[:-1], zone))
     elif entry == "frame_extra":
@@ -187,7 +192,9 @@ def span_tag(period, zone):
 def run_billing(case):
     zone = case["zone"]
     inputs, dates, amounts, regime = billing_inputs(case)
-    key0 = {"space": "billing", "cls": case.get("cls", "baseline"), "entry": case["entry"]}
+    key0 = {"space": "billing", "entry": case["entry"]}
+    if case["feed"] == "halfhourly":
+        key0["feed"] = "halfhourly"
     periods = iv.billing_periods(dates, amounts, zone, regime)
     dev_pos = {p for p, _ in case.get("dev", [])}
     try:
@@ -226,7 +233,7 @@ def run_billing(case):
         conserved = n_nan == 0 and close(total, p["amount"])
         where = "last" if p["i"] == len(periods) - 1 else "next_to_last" if p["i"] == len(periods) - 2 else "earlier"
         kind = {"len": p["ndays"] if p["i"] in dev_pos else "base", "span": span_tag(p, zone), "pos": where}
-        desc = (f"{case['cal']} dev={case.get('dev', [])} {zone} feed={case['feed']}: period {p['i']} [{p['start_date']} .. {p['end_date']}) {p['ndays']} days ({p['minutes'] / 1440:.4f} x 24 h), "
+        desc = (f"{case.get('cls', 'baseline')} class, {case['cal']} dev={case.get('dev', [])} {zone} feed={case['feed']}: period {p['i']} [{p['start_date']} .. {p['end_date']}) {p['ndays']} days ({p['minutes'] / 1440:.4f} x 24 h), "
                 f"billed {float(p['amount'])}: {len(got) - n_nan} days carry usage summing to {total!r}, {n_nan} days NaN")
         sum_ok = not all_nan and close(total, p["amount"])
         if p["validity"] == "valid":
@@ -294,6 +301,9 @@ def billing_cases(tier):
                         for z in zones:
                             for e, f in combos:
                                 add(cal, dev, z, e, f)
+                            if d == 0:  # the feed's interval must not matter: also a half-hourly feed on the base calendars
+                                for e in ("from_series", "frame_lastday", "frame_extra"):
+                                    add(cal, dev, z, e, "halfhourly")
                         # Reporting classes: same resampling code; thinner slice
                         if d == 0 or not quick or positions[0] in (0, n - 2, n - 1):
                             for z in (["America/Chicago"] if quick else ["America/Chicago", "Australia/Sydney"]):
@@ -335,10 +345,16 @@ def phase_cases(tier):
 
 # ------------------------------------------------------------------------------------ sub-daily
 
+DAILY_DAYS = 12  # daily readings: Monday .. Friday of the next week, the DST Sunday is day 6
+SUB_DAYS = 5     # sub-daily readings: DST day in the middle
+
+
 def window(zone, which, ndays):
-    """First date of an `ndays` window whose middle day is the zone's spring / autumn change (2021)."""
+    """First date of the window (2021): the zone's spring / autumn change is day ndays // 2.
+    (Every enumerated zone changes on a Sunday, so the 12-day daily window starts on a Monday and
+    holds exactly one weekend; with <= 2 runs of <= 2 days at least 7 of the 11 spacings are one day.)"""
     if which == "plain":
-        return dt.date(2021, 3, 12)
+        return dt.date(2021, 3, 8) if ndays == DAILY_DAYS else dt.date(2021, 3, 12)
     ds = dst_dates(zone)
     short = [d for d, m in ds if m < 1440]
     long_ = [d for d, m in ds if m > 1440]
@@ -352,7 +368,7 @@ def windows_for(zone):
 
 def subdaily_series(case):
     zone, f = case["zone"], case["freq"]
-    ndays = 7 if f == 1440 else 5
+    ndays = DAILY_DAYS if f == 1440 else SUB_DAYS
     d0 = window(zone, case["window"], ndays)
     t0, t1 = iv.wall_to_min(d0, zone), iv.wall_to_min(iv.add_days(d0, ndays), zone)
     if f == 1440:
@@ -436,8 +452,7 @@ def compare_subdaily(table, first_day, final_day, by_date):
 def run_subdaily(case):
     zone, f, d0, ndays, times, ends, values, t0, t1 = subdaily_series(case)
     gran = "daily" if f == 1440 else "subdaily"
-    key0 = {"space": "subdaily", "cls": case.get("cls", "baseline"), "entry": case["entry"], "gap": case["gap"],
-            "granularity": gran}
+    key0 = {"space": "subdaily", "entry": case["entry"], "gap": case["gap"], "granularity": gran}
     pres = [i for i, v in enumerate(values) if v is not None]
     if len(pres) < 2:
         return {"rejected": "fewer than two present readings"}
@@ -468,7 +483,7 @@ def run_subdaily(case):
                 "violations": [{"clause": "day_grid", "key": key0,
                                 "detail": f"freq {f} min, runs {case.get('runs')}: output rows at wall-clock minutes {sorted(str(w) for w in walls)}"
                                           f"{' with duplicate dates' if dup else ''}; accepted {sorted(allowed)}"}]}
-    head = f"freq {f} min, window from {d0} ({zone}), missing runs {case.get('runs', [])} as {case['gap']}: "
+    head = f"{case.get('cls', 'baseline')} class, freq {f} min, window from {d0} ({zone}), missing runs {case.get('runs', [])} as {case['gap']}: "
     table, first_day, final_day = subdaily_expect(zone, times, ends, values, anchor, "nominal")
     v_nom, beh = compare_subdaily(table, first_day, final_day, by_date)
     accepted = "nominal"
